@@ -5,6 +5,7 @@ P=$1
 for d in /tmp/mut/$P/m*/; do
   [ -f "$d/patch.diff" ] || continue
   id="$P-$(basename $d)"
+  [ -f /verif/seeded/$id/patch.diff ] && continue   # never overwrite a seed that is already kept (it may have been rebased)
   mkdir -p /verif/seeded/$id
   cp "$d/patch.diff" "$d/demo.py" "$d/meta.json" /verif/seeded/$id/ 2>/dev/null || true
   echo imported $id
